@@ -386,7 +386,13 @@ Definition start_names (names exclude : list string) : list string :=
 Record fragmod := { fm_names : list string;        (* _fragments_names after generation *)
                     fm_generated : list string;    (* generation order *)
                     fm_order : list string;        (* sorted names (class order) *)
-                    fm_classes : list (string * list cls) }.
+                    fm_classes : list (string * list cls);
+                    fm_imports : list mixin_dir }.     (* @mixin imports of the module: those of EVERY generated
+                                                         fragment, re-added ones included *)
+
+(* imports.extend(generator.get_imports()) for every generated fragment *)
+Definition module_imports_of (imps : list (string * list mixin_dir)) (generated : list string) : list mixin_dir :=
+  flat_map (fun n => match lookup n imps with Some l => l | None => [] end) generated.
 
 Record package := { pk_ops : list (string * list cls * st);
                     pk_exclude : list string;
@@ -434,7 +440,9 @@ Definition generate_package (fuel : nat) (sch : aschema) (frags : list fragdef) 
                                                    | Some c => c | None => [] end)) order in
                   Some {| pk_ops := opsr'; pk_exclude := exclude; pk_frag_table := tbl;
                           pk_module := Some {| fm_names := fnames; fm_generated := done;
-                                               fm_order := order; fm_classes := classes |} |}
+                                               fm_order := order; fm_classes := classes;
+                                               fm_imports := module_imports_of
+                                                 (combine names (map (fun r => st_imports (snd r)) rfrags)) done |} |}
               end
           end
       end
@@ -539,7 +547,8 @@ Definition sPackage (p : package) : sexp :=
       match pk_module p with
       | None => A "none"
       | Some m => L [A "some"; L [sStrs (fm_names m); sStrs (fm_generated m); sStrs (fm_order m);
-                                  L (map (fun nc => L [A (fst nc); L (map sCls (snd nc))]) (fm_classes m))]]
+                                  L (map (fun nc => L [A (fst nc); L (map sCls (snd nc))]) (fm_classes m));
+                                  sPairs (fm_imports m)]]
       end ].
 
 (* (package fuel schema (frag...) (op...) snake oracle-table)      -> (some <package>) | none
